@@ -448,3 +448,72 @@ func VerifHarness_C12_O5() { VerifHarness_C14_O3() }
 // request is served between the hashgraph reset and the application restore".
 func VerifHarness_C13_O5() { VerifHarness_C12_O3() }
 func VerifHarness_C17_O5() { VerifHarness_C12_O3() }
+
+// C12/O6 (= C09/O11) — the catching-up node ALREADY HOLDS the offered block
+// (it produced it itself: same index, same body, possibly with signatures of
+// its own).  The responder sends the genuine body and frame with a signature
+// map of 0..3 entries, each filed under a validator's or a stranger's key, with
+// symbolic validity.  Knowing the body does not make the signature map
+// trustworthy: adopted => more than a third of distinct validators signed
+// validly; whatever was adopted or refused, the block the node then holds
+// carries only signatures that verify.
+func VerifHarness_C12_O6() {
+	vc := verifNewCore(4, 0)
+	vc.seedHistory()
+	members := vc.peers
+	frame := verifMkFrame(members, 5)
+	frameHash, _ := frame.Hash()
+	block := hg.NewBlock(3, 5, frameHash, members, [][]byte{[]byte("tx")}, nil, 77)
+	block.Body.StateHash = []byte("state")
+	digest, _ := block.Body.Hash()
+	own := &hg.Block{Body: block.Body, Signatures: map[string]string{}}
+	if err := vc.store.SetBlock(own); err != nil {
+		panic(err)
+	}
+	m := verifChoice("entries", 4)
+	valid := make([]bool, 4)
+	for i := 0; i < m; i++ {
+		claim := verifChoice(fmt.Sprintf("filedUnder%d", i), 5) // 4 = a stranger's key
+		signer := verifChoice(fmt.Sprintf("madeBy%d", i), 2)      // 0: the key it is filed under, 1: a stranger
+		ok := verifNondetBool(fmt.Sprintf("ok%d", i))
+		kid := claim
+		if claim == 4 {
+			kid = 8
+		}
+		sk := kid
+		if signer == 1 {
+			sk = 9
+		}
+		fk := verifKey(kid)
+		block.Signatures[keys.PublicKeyHex(&fk.PublicKey)] = verifSignature(verifKey(sk), digest, ok)
+	}
+	// distinct validators whose entry (the one that survived in the map) verifies
+	for j := 0; j < 4; j++ {
+		k := verifKey(j)
+		if sig, has := block.Signatures[keys.PublicKeyHex(&k.PublicKey)]; has {
+			okv, err := block.Verify(hg.BlockSignature{Validator: keysPub(j), Index: 3, Signature: sig})
+			valid[j] = err == nil && okv
+		}
+	}
+	d := 0
+	for j := range valid {
+		if valid[j] {
+			d++
+		}
+	}
+	err := vc.c.fastForward(block, frame)
+	if err == nil {
+		verifAssert("own-block-adopted-only-with-more-than-a-third-distinct-valid-signatures", 3*d > 4)
+		verifReach("own-block-adopted-from-a-well-signed-response")
+	}
+	if sb, gerr := vc.store.GetBlock(3); gerr == nil {
+		for _, sig := range sb.GetSignatures() {
+			okv, verr := sb.Verify(sig)
+			_, member := vc.set.ByPubKey[sig.ValidatorHex()]
+			verifAssert("held-block-carries-only-valid-validator-signatures", verr == nil && okv && member)
+		}
+	}
+	verifReach("end")
+}
+
+func VerifHarness_C09_O11() { VerifHarness_C12_O6() }
